@@ -17,6 +17,7 @@ import GIV.Model.Txtar
 import GIV.Model.Script
 import GIV.Model.ScriptUpdate
 import GIV.Gen.TsRun
+import GIV.Gen.TsRunUpdate
 
 namespace GIV.TsRun.Cmds
 open GIV GIV.TsRun GIV.TsRun.Update
@@ -652,7 +653,7 @@ def runFile (p : P) (file : Bytes) : Option Final :=
     let setupFailed := match su with | .error _ => true | .ok _ => false
     let u := r.state.updates
     -- `defer ts.applyScriptUpdates()` is only registered once setup has returned
-    let applies := !(setupFailed && Gen.TsRun.applyDeferredAfterSetup)
+    let applies := !(setupFailed && Gen.TsRunUpdate.applyDeferredAfterSetup)
     let fin : Verdict × Bytes := if applies then finish r.verdict file a u else (r.verdict, file)
     -- a refused Quote is a Fatalf: one more `FAIL: file:line:` entry, at the current ts.lineno
     let quoteErr : Bool := applies && !u.isEmpty &&
